@@ -148,6 +148,9 @@ def selftest_traces(ctx, trace, rejected):
             and len(tr) <= 12 and any(e["ev"] == "xform" and e["nd"] > 0 and e["ns"] > 0 for e in tr)
             and sum(1 for e in tr if e["ev"] == "xform") >= 2]
     if not cand:
+        if ctx.violations:      # every such trace is rejected on this tree: nothing left to corrupt
+            ctx.log("binding self-test on traces skipped: no accepted trace to corrupt")
+            return 0
         raise verif.Undecided("binding self-test: no accepted trace with two Transform calls")
     base = [{k: v for k, v in e.items() if k != "_line"} for e in cand[0]]
     i = [k for k, e in enumerate(base) if e["ev"] == "xform" and e["nd"] > 0 and e["ns"] > 0][0]
